@@ -117,12 +117,8 @@ fn check_len<const L: usize>() {
         }
         (Err(_), None) => {}
     }
-    if L == 0 {
-        kani::cover!(true, "the empty string is decided");
-    } else {
-        kani::cover!(r.is_ok(), "some string is accepted");
-        kani::cover!(r.is_err(), "some string is rejected");
-    }
+    kani::cover!(r.is_ok(), "some string is accepted");
+    kani::cover!(r.is_err(), "some string is rejected");
     core::mem::forget(r);
 }
 
@@ -140,7 +136,23 @@ macro_rules! from_str_harness {
         }
     };
 }
-from_str_harness!(c16_from_str_len0, 0, 3);
+#[kani::proof]
+#[kani::unwind(40)]
+#[kani::stub(ruint::Uint::from_str_radix, model_from_str_radix)]
+#[kani::stub(ruint::Uint::checked_mul, model_checked_mul)]
+#[kani::stub(ruint::Uint::checked_add, model_checked_add)]
+#[kani::stub(ruint::Uint::pow, model_pow)]
+#[kani::stub(alloc::fmt::format, crate::stubs::fmt_format)]
+fn c16_from_str_len0() {
+    // the empty string: whether it denotes zero or is rejected is a leniency the text does not settle;
+    // it must not panic and, if accepted, must be zero
+    let r = AttoTokens::from_str("");
+    if let Ok(v) = &r {
+        assert!(v.is_zero());
+    }
+    kani::cover!(true, "the empty string is decided");
+    core::mem::forget(r);
+}
 from_str_harness!(c16_from_str_len1, 1, 4);
 from_str_harness!(c16_from_str_len2, 2, 5);
 from_str_harness!(c16_from_str_len3, 3, 6);
